@@ -94,10 +94,12 @@ def run(chk):
         for L, fr in sorted(byL.items()):
             inst = f'eccentricity_functions_lookup[{N}][{L}]'
             where = mh.where(mh.defs['eccentricity_functions_lookup'])
-            if not isinstance(fr, FuncRef):
-                chk.ob('R08.3', inst, False, 'registry entry is not a repo function', where); continue
-            res = it.call(fr.mod, fr.node, [e])
-            where = fr.mod.where(fr.node)
+            from ..core.interp import Obj as _Obj
+            if not isinstance(fr, (FuncRef, _Obj)):
+                chk.ob('R08.3', inst, False, 'registry entry is not a callable of the repository', where); continue
+            # (a wrapper object around the helper is judged by what it returns, like the helper itself)
+            res = it.call(fr.mod, fr.node, [e]) if isinstance(fr, FuncRef) else Interp(repo).apply(fr, [e], {}, None, None)
+            if isinstance(fr, FuncRef): where = fr.mod.where(fr.node)
             if not isinstance(res, dict) or sorted(res) != list(range(2, L + 1)):
                 chk.ob('R08.3', inst, False, f'returns degrees {sorted(res) if isinstance(res, dict) else type(res).__name__}, expected 2..{L}', where)
                 continue
@@ -107,7 +109,46 @@ def run(chk):
                 if not ok:
                     why += f'l={l}: {w}; '
             chk.ob('R08.3', inst, not why, why, where, key=f'R08.3|{inst}', method='node identity')
-            chk.note_analysed('functions', f'{fr.mod.name.split(".")[-1]}.{fr.node.name}')
+            chk.note_analysed('functions', f'{fr.mod.name.split(".")[-1]}.{fr.node.name}' if isinstance(fr, FuncRef) else f'{inst} (wrapper)')
+    # R08.4 a helper returns the tables of the eccentricity it is given NOW: each sampled registry entry is called twice in one interpreter state, the second time with the
+    # same array object whose content was updated in place in between (the state array of an evolution loop), and with a fresh array; each result must be, entry for entry,
+    # what a fresh interpreter returns for that eccentricity.
+    from ..core.interp import ArrBox
+    e2 = X.atom('e_second', 'pos')
+    sample = [(N, L) for N in sorted(look) for L in sorted(look[N])]
+    if chk.tier == 'quick':
+        sample = [nl for nl in sample if nl[0] in (min(look), 10, max(look))][:9]
+    for N, L in sample:
+        fr = look[N][L]
+        inst = f'eccentricity_functions_lookup[{N}][{L}]'
+        where = mh.where(mh.defs['eccentricity_functions_lookup'])
+        for how in ('the same array updated in place', 'a fresh array'):
+            ith = Interp(repo); ith.array_mode = True
+            cell = ArrBox(e)
+            try:
+                r1 = ith.apply(fr, [cell], {}, None, None)
+                if how.startswith('the same'):
+                    cell.v = e2; a2 = cell
+                else:
+                    a2 = ArrBox(e2)
+                r2 = ith.apply(fr, [a2], {}, None, None)
+                itf = Interp(repo); itf.array_mode = True
+                want = itf.apply(fr, [ArrBox(e2)], {}, None, None)
+            except AnalysisError as ex:
+                raise AnalysisError(f'{inst} called twice: {ex}')
+            bad = ''
+            if not isinstance(r2, dict) or not isinstance(want, dict) or sorted(r2) != sorted(want):
+                bad = 'the second call does not return the degrees a fresh call returns'
+            else:
+                for l_ in sorted(want):
+                    for p_ in want[l_]:
+                        for q_ in want[l_][p_]:
+                            a_ = getattr(r2[l_].get(p_, {}).get(q_), 'v', r2[l_].get(p_, {}).get(q_)); b_ = getattr(want[l_][p_][q_], 'v', want[l_][p_][q_])
+                            if a_ is not b_ and not (isinstance(a_, X.Node) and isinstance(b_, X.Node) and a_.uid == b_.uid):
+                                bad = bad or f'second call, l = {l_}, (p, q) = ({p_}, {q_}): not the table entry at the eccentricity of that call'
+            chk.ob('R08.4', f'{inst} called twice in one state, the second time with {how}: the second call returns the tables at the eccentricity it was given', not bad, bad, where,
+                   key=f'R08.4|{inst}|{how}', method='two successive calls in one interpreter state, arrays as mutable cells; node identity against a fresh call')
+    chk.floor('R08.4', 6)
     from .common import registry_writers
     registry_writers(chk, 'R08.3', repo, 'TidalPy/tides/modes/mode_calc_helper/__init__.py', ['eccentricity_functions_lookup'])
     registry_writers(chk, 'R08.3', repo, 'TidalPy/tides/eccentricity_funcs/__init__.py', ['eccentricity_truncations'])
